@@ -1003,6 +1003,8 @@ structure CCCall where
   root : Box3
   /-- visited outer leaves, each with its query box in the inner composite's frame and the inner leaves visited -/
   outer : List (Nat × Box3 × List Nat)
+  /-- the manifolds of a fresh computation (new vector, no workspace) at the same pose: labels and geometry -/
+  fresh : List (Nat × Nat × Manifold3 Float)
 
 structure CCCase where
   parts1 : List Part3
@@ -1022,7 +1024,8 @@ def pcc : P CCCase := do
       let calls ← pN (do
           let fl ← pbool; let rb ← pobox
           let outer ← plist (do let l ← pnat; let bx ← pobox; let inner ← plist pnat; pure (l, bx, inner))
-          pure (⟨fl, rb, outer⟩ : CCCall)) poses.length
+          let fresh ← plist (do let a ← pnat; let b ← pnat; let m ← poman3; pure (a, b, m))
+          pure (⟨fl, rb, outer, fresh⟩ : CCCall)) poses.length
       pure (b1, b2, calls)) <|> pure ([], [], [])
   pure ⟨p1, p2, pr, poses, obs.1, obs.2.1, obs.2.2⟩
 
@@ -1100,6 +1103,20 @@ def ccOracle (c : CCCase) (outs : List (List OutMan)) : String :=
         | some (_, t) => o.tag != t
         | none => o.tag != 0
       if !badTag.isEmpty then some s!"call={k} manifold-data-not-following-its-pair {badTag.map (·.2)}" else
+      -- the property's reference: the same pair set as a fresh computation, and (closed-form narrow phases, no warm start)
+      -- the very same contacts; normals compared when there is a contact (a cleared manifold keeps its old normals)
+      let freshIds := call.fresh.map fun (a, b, _) => (a, b)
+      if !(ids.all (freshIds.contains ·) && freshIds.all (ids.contains ·)) then
+        some s!"call={k} pair-set-differs-from-fresh-computation persisted={ids} fresh={freshIds}" else
+      let badFresh := ms.findSome? fun o =>
+        match call.fresh.find? (fun (a, b, _) => a == o.s1 && b == o.s2), c.parts1[o.s1]?, c.parts2[o.s2]? with
+        | some (_, _, fm), some A, some B =>
+          if A.ty == 1 && B.ty == 1 then none else
+          let same := (o.m.points.map fcontact3) == (fm.points.map fcontact3) &&
+            (o.m.points.isEmpty || (fv3 o.m.n1 == fv3 fm.n1 && fv3 o.m.n2 == fv3 fm.n2))
+          if same then none else some s!"call={k} pair=({o.s1},{o.s2}) contacts-differ-from-fresh-computation"
+        | _, _, _ => none
+      if badFresh.isSome then badFresh else
       let Pq := qiso3 P
       let subOf (A B : Part3) : Iso3 Rat := (qiso3 A.pose).invMul (Pq.mul (qiso3 B.pose))
       let geo : Option String := ms.findSome? fun o =>
